@@ -18,6 +18,15 @@ type PubStruct struct {
 	priv int
 }
 
+type embBase struct{ X int }
+
+// EmbStruct embeds a non-exported type (unreadable through reflection, to be skipped like any private field).
+type EmbStruct struct {
+	embBase
+	Name string
+	Tags []string
+}
+
 // SliceStruct has slice- and array-valued fields.
 type SliceStruct struct {
 	Name string
@@ -140,6 +149,9 @@ func init() {
 		p := int(l.Elems[2].I)
 		return &PubStruct{A: int(l.Elems[0].I), B: l.Elems[1].S, P: &p, F: l.Elems[3].F, priv: 9}
 	}
+	extraLeaf["emb-struct"] = func(l *LeafDesc) any {
+		return EmbStruct{embBase: embBase{X: 3}, Name: l.Elems[0].S, Tags: []string{l.Elems[1].S, l.Elems[2].S}}
+	}
 	extraLeaf["slice-struct"] = func(l *LeafDesc) any {
 		return SliceStruct{Name: l.Elems[0].S, L: []int{int(l.Elems[1].I), int(l.Elems[2].I), int(l.Elems[3].I)}, Arr: [2]string{l.Elems[4].S, l.Elems[5].S}}
 	}
@@ -227,6 +239,8 @@ func c05Leaf(r *core.Rng) *LeafDesc {
 		return &LeafDesc{Tag: []string{"struct", "ptr-struct"}[r.Intn(2)], Elems: []*LeafDesc{intLeaf(r), strLeaf(r), intLeaf(r), {Tag: "float64", F: float64(r.Intn(50))}}}
 	case 13:
 		return &LeafDesc{Tag: "slice-struct", Elems: []*LeafDesc{strLeaf(r), intLeaf(r), intLeaf(r), intLeaf(r), strLeaf(r), strLeaf(r)}}
+	case 14:
+		return &LeafDesc{Tag: "emb-struct", Elems: []*LeafDesc{strLeaf(r), strLeaf(r), strLeaf(r)}}
 	}
 	return c05Prim(r)
 }
@@ -384,6 +398,15 @@ func c05Run(c *core.Ctx, idx int) {
 		base = c05Gen.Gen(r)
 		if r.Chance(1, 5) {
 			base.Cap = len(base.Kids) + r.Intn(3)
+		}
+		if r.Chance(1, 4) {
+			// a shared presentation symbol must not hide a difference in kind
+			sym := []string{"#", "~", "&&"}[r.Intn(3)]
+			base.Walk(func(n *TNode) {
+				if n.T == "stack" && r.Chance(2, 3) {
+					n.Sym = sym
+				}
+			})
 		}
 	}
 	type inst struct {
